@@ -64,6 +64,10 @@ __tok_spec(const char *fp, const char **ep)
 
 next:
 	switch (*++fp) {
+	case '\0':
+		/* format ends within a spec, stay on the terminator */
+		fp--;
+		goto out;
 	default:
 		goto out;
 	case 'F':
